@@ -418,6 +418,18 @@ func unknownFields() []wfield {
 			wfield{num, protowire.BytesType, protowire.AppendBytes(protowire.AppendTag(nil, num, protowire.BytesType), []byte{0x08, 0x01})},
 		)
 	}
+	// unknown fields of the (deprecated, still legal) group wire type: empty, with
+	// one varint field inside, nested
+	for _, num := range []protowire.Number{9, 2047} {
+		empty := protowire.AppendTag(protowire.AppendTag(nil, num, protowire.StartGroupType), num, protowire.EndGroupType)
+		one := protowire.AppendTag(nil, num, protowire.StartGroupType)
+		one = protowire.AppendVarint(protowire.AppendTag(one, 1, protowire.VarintType), 5)
+		one = protowire.AppendTag(one, num, protowire.EndGroupType)
+		nested := protowire.AppendTag(nil, num, protowire.StartGroupType)
+		nested = append(nested, protowire.AppendTag(protowire.AppendTag(nil, 3, protowire.StartGroupType), 3, protowire.EndGroupType)...)
+		nested = protowire.AppendTag(nested, num, protowire.EndGroupType)
+		out = append(out, wfield{num, protowire.StartGroupType, empty}, wfield{num, protowire.StartGroupType, one}, wfield{num, protowire.StartGroupType, nested})
+	}
 	return out
 }
 
